@@ -23,5 +23,14 @@ PROPS = {
                 gen_items=["workReset", "consReset", "check", "skeletons"], trusted=SEQ_TRUST),
     "C12": dict(module="MRB.Props.C12", level="proof", profiles=[prof("detached", 500)],
                 gen_items=["detSetIndex", "detReset", "detAdvance", "detGoBack", "detSync", "adetAdvance", "adetGoBack", "adetSync", "skeletons"], trusted=SEQ_TRUST),
+    "C07": dict(module="MRB.Props.C07", level="proof", profiles=[prof("drops", 500)],
+                gen_items=["skeletons", "concAcc", "localAcc"], trusted=SEQ_TRUST + ["allocator outside the model"]),
+    "C08": dict(module="MRB.Props.C08", level="proof", profiles=[prof("own", 600)], also_tags=[],
+                gen_items=["storeKinds", "pins"], trusted=SEQ_TRUST + ["live values are never all-zero bytes (property assumption)"]),
+    "C09": dict(module="MRB.Props.C09", level="proof", profiles=[prof("own", 600)],
+                gen_items=["storeKinds", "pins"], trusted=SEQ_TRUST + ["live values are never all-zero bytes (property assumption)"]),
+    "C13": dict(module="MRB.Props.C13", level="translation_validation", profiles=[prof("all", 800), prof("own", 300)],
+                also_tags=["C01", "C04", "C05", "C06", "C07", "C08", "C09", "C11", "C12", "C18"],
+                gen_items=["concAcc", "localAcc", "adetGoBack", "adetAdvance", "adetSync"], trusted=SEQ_TRUST),
     "C18": dict(module="MRB.Props.C18", level="proof", profiles=[prof("construct", 500)], gen_items=[], trusted=SEQ_TRUST),
 }
